@@ -258,4 +258,26 @@ theorem committed_then_reply_fails (cfg : Config E) (d : Dirt E) (blk : Block) (
   rw [executeSubmsgI_succ, h]
   simp only [transactionalI, hw, if_true, hr]
 
+/-! ### C13: a rejected response — its writes are in the storage when the error is raised -/
+
+theorem malformed_writes_then_error (cfg : Config E) (d : Dirt E) (blk : Block) (ch : Chain E) (addr : Addr)
+    (en : Entry) (tr : Trace) (cd : ContractData) (code : Code E) (resp : Response) (own' : Store Val) (note : String)
+    (hc : ch.contracts.get? addr = some cd) (hcode : contractCode? cfg cd.codeId = some code)
+    (hrun : code.run en (contractEnv blk addr) ch ((ch.cstore.get? addr).getD []) = (.ok (resp, own'), note))
+    (hbad : responseOk resp = false) :
+    callContractI cfg d blk ch addr en tr =
+      (.err, { ch with cstore := ch.cstore.set addr own' }, tr ++ [⟨addr, en, contractEnv blk addr, note⟩]) := by
+  simp only [callContractI, hc, hcode, hrun, transactionalI, hbad]
+  rfl
+
+theorem malformed_dropped_by_cache (cfg : Config E) (d : Dirt E) (blk : Block) (ch : Chain E) (addr : Addr)
+    (en : Entry) (tr : Trace) (cd : ContractData) (code : Code E) (resp : Response) (own' : Store Val) (note : String)
+    (hc : ch.contracts.get? addr = some cd) (hcode : contractCode? cfg cd.codeId = some code)
+    (hrun : code.run en (contractEnv blk addr) ch ((ch.cstore.get? addr).getD []) = (.ok (resp, own'), note))
+    (hbad : responseOk resp = false) :
+    transactionalI ch (callContractI cfg d blk ch addr en tr) =
+      (.err, ch, tr ++ [⟨addr, en, contractEnv blk addr, note⟩]) := by
+  rw [malformed_writes_then_error cfg d blk ch addr en tr cd code resp own' note hc hcode hrun hbad]
+  rfl
+
 end CwMt.EngineTx
